@@ -11,6 +11,9 @@ var Families = map[string]func(p map[string]any) *Scenario{}
 
 func goNamed(name string, f func()) *vsched.Thread { return vsched.GoNamed(name, f) }
 
+// GoNamed starts a harness thread (for other harness packages).
+func GoNamed(name string, f func()) { vsched.GoNamed(name, f) }
+
 func chanInfo[T any](c chan T) (bool, int) { return vsched.ChanInfo(c) }
 
 // Job is one unit of exploration handed to a worker process.
